@@ -162,3 +162,26 @@ fn s2_one_request_spoof_then_genuine() {
 impl KrpcSocket {
     pub(crate) fn kani_add_inflight(&mut self, to: SocketAddrV4) -> u32 { self.inflight_requests.add(to) }
 }
+
+#[kani::proof]
+#[kani::stub(std::time::Instant::now, clock::now)]
+#[kani::stub(InflightRequests::update_rtt_estimates, rtt_stub)]
+#[kani::unwind(7)]
+fn s3_two_requests_spoof_then_genuine() {
+    let mut s = fake_socket(false);
+    clock::set(0);
+    let to0 = SocketAddrV4::new([10, 0, 0, 1].into(), 1);
+    let to = SocketAddrV4::new(kani::any::<u32>().into(), kani::any());
+    kani::assume(!to.ip().is_unspecified());
+    let tid0 = s.inflight_requests.add(to0);
+    let tid = s.inflight_requests.add(to);
+    let spoof_tid: u32 = kani::any();
+    let spoof_from = SocketAddrV4::new(kani::any::<u32>().into(), kani::any());
+    let r1 = s.is_expected_response(&resp(spoof_tid), &spoof_from);
+    let hits0 = spoof_tid == tid0 && spoof_from == to0;
+    let hits1 = spoof_tid == tid && spoof_from == to;
+    assert!(r1 == (hits0 || hits1));
+    let r2 = s.is_expected_response(&resp(tid), &to);
+    assert!(r2 == !hits1);
+    std::mem::forget(s);
+}
